@@ -25,9 +25,9 @@ struct PF {
     trace: Option<String>,
 }
 
-const POSITIONS: [&str; 13] = [
+const POSITIONS: [&str; 15] = [
     "top-level-let", "function-body", "map-callback", "filter-callback", "reduce-callback", "module-body", "module-out-expression", "select-arm", "tuple-field", "call-argument", "format-argument",
-    "nested-function", "include-str",
+    "nested-function", "format-expression-argument", "deferred-in-helper-function", "include-str",
 ];
 
 fn dir_of(rel: &str) -> Vec<String> {
@@ -92,6 +92,26 @@ fn spell(from: &str, to: &str, t: &mut Tape) -> String {
     s
 }
 
+fn helper_name(file_idx: usize, import_idx: usize) -> String {
+    format!("hlp_{}_{}.ucg", file_idx, import_idx)
+}
+
+/// (path relative to the root, source) of the helper files the deferred imports go through
+fn helper_files(files: &[PF]) -> Vec<(String, String)> {
+    let mut out = vec![];
+    for (i, f) in files.iter().enumerate() {
+        for (k, (j, _, pos)) in f.imports.iter().enumerate() {
+            if pos == "deferred-in-helper-function" {
+                out.push((
+                    helper_name(i, k),
+                    format!("let df = func () => int(\"@{{item.app}}\" % {{app = (import \"./{}\").total}});\n", files[*j].rel),
+                ));
+            }
+        }
+    }
+    out
+}
+
 fn import_value_expr(path: &str) -> String {
     format!("(import \"{}\").total", path)
 }
@@ -126,6 +146,13 @@ fn render_file(f: &PF, idx: usize) -> String {
             "tuple-field" => s.push_str(&format!("let {} = {{fld = {}}}.fld;\n", name, iv)),
             "call-argument" => s.push_str(&format!("let id{} = func (q) => q;\nlet {} = id{}({});\n", k, name, k, iv)),
             "format-argument" => s.push_str(&format!("let {} = int(\"@\" % ({}));\n", name, iv)),
+            "format-expression-argument" => s.push_str(&format!("let {} = int(\"@{{item.app}}\" % {{app = {}}});\n", name, iv)),
+            "deferred-in-helper-function" => {
+                // the import sits in a function of a helper file that has long finished importing
+                // when this file calls it (the helper lives in the project root, see helper_files)
+                let ups: String = std::iter::repeat("../").take(dir_of(&f.rel).len()).collect();
+                s.push_str(&format!("let h{} = import \"{}{}\";\nlet {} = h{}.df();\n", k, if ups.is_empty() { "./".to_string() } else { ups }, helper_name(idx, k), name, k));
+            }
             _ => {
                 // include str of the imported file's source next to an ordinary import
                 s.push_str(&format!("let inc{} = include str \"{}\";\nlet {} = select (inc{} == \"\", {}) => {{true = 0 - 1}};\n", k, path, name, k, iv));
@@ -243,6 +270,9 @@ impl C09 {
             let p = root.join(&f.rel);
             std::fs::create_dir_all(p.parent().unwrap()).expect("mkdir");
             std::fs::write(&p, render_file(f, i).replace("@ROOT@", &root.to_string_lossy())).expect("write");
+        }
+        for (rel, src) in helper_files(files) {
+            std::fs::write(root.join(&rel), src).expect("write helper");
         }
         let entry_abs = root.join(&files[0].rel);
         let entry_dir = entry_abs.parent().unwrap().to_path_buf();
